@@ -14,6 +14,10 @@ PK="./asm/... ./cache/... ./db ./db/fs/... ./db/mem/... ./db/postgres/... ./engi
 one() {
   id=$1; d=/verif/seeded/$id; res=$snap/out/$id
   [ -f $d/patch.diff ] || return
+  if python3 -c "import json,sys; sys.exit(0 if json.load(open('$d/meta.json')).get('neutralised') else 1)"; then
+    echo "| $id | - | - | no longer a violation on this tree (see meta.json: neutralised); kept for the record |" > $res
+    return
+  fi
   wt=/var/tmp/vwtV.$$.$id
   git -C /repo worktree add -q --detach $wt HEAD || { echo "| $id | - | worktree failed | |" > $res; return; }
   note=""
